@@ -477,6 +477,18 @@ class Interp:
         cases = [(B.AND(c, cc), p) for cc, p in a.cases] + [(B.AND(nc, cc), p) for cc, p in b.cases]
         return Value(self.coalesce(cases))
 
+    def simplify_value(self, v, cond):
+        B = self.B
+        out = []
+        for c, p in v.cases:
+            cc = B.AND(c, cond)
+            if cc == 0:
+                continue
+            if isinstance(p, Int):
+                p = self.trim(Int([B.simplify(x, cc) if x > 1 else x for x in p.bits], p.signed))
+            out.append((c, p))
+        return Value(out)
+
     def restrict_value(self, v, cond):
         """Keep only cases compatible with cond (conds are kept unrestricted)."""
         B = self.B
@@ -635,6 +647,9 @@ class Interp:
         if isinstance(e, ast.BinOp):
             a = self._eval(e.left, st)
             b = self._eval(e.right, st)
+            if isinstance(e.op, (ast.LShift, ast.RShift, ast.Pow)):
+                # amounts are judged under the path condition (e.g. `lsbit - 3` is non-negative where lsbit >= 8)
+                b = self.simplify_value(b, st.cond)
             return self.lift2(a, b, lambda x, y: self.binop(e.op, x, y), st.cond)
         if isinstance(e, ast.Compare):
             left = self._eval(e.left, st)
